@@ -12,7 +12,7 @@ PID = "C11"
 ANCHORS = ["scores.py:Scores.bootstrap_sample", "scores.py:Scores._sample_indices", "scores.py:Scores._sampling_method",
            "scores.py:Scores._sample_indices.<locals>._single_pass_sampling"]
 RAISES_ARE_VIOLATIONS = True
-DECIDING = {"M-bs": 40000, "S-bs": 300}
+DECIDING = {"M-bs": 135735, "S-bs": 195}
 THOROUGH_EXTRA = ["W2", "W3"]
 Z_CRIT = 6.5
 RULE = (
